@@ -233,6 +233,10 @@ func c08Judge(fullB bool) func(sc *e1Scenario, h *hist.Hist, cps map[string][]in
 							col.Violation("C08:verdict-differs-with-cache:index-missing-policy-or-attestation-entries-of-the-log",
 								fmt.Sprintf("[%s] %s(%s) with a cache populated at %d, advanced by %s(%s) at %d, log length %d = %s, without cache = %s", h.Describe(), p.mode, p.ref, k, adv.mode, adv.ref, j, n, got, base[p]),
 								e1Replay{Scenario: sc.Name, Events: h.Events, Mode: p.mode, Ref: p.ref})
+						} else if !c08Same(got, base[p]) && adv.mode == "latest" && p.mode == "full" && got.ok && !base[p].ok {
+							col.Violation("C08:latest-only-verification-marks-its-entry-last-verified:full-verification-then-skips-earlier-entries",
+								fmt.Sprintf("[%s] full(%s) after latest-only verification of %s at log length %d advanced the cache = %s, without cache = %s", h.Describe(), p.ref, adv.ref, j, got, base[p]),
+								e1Replay{Scenario: sc.Name, Events: h.Events, Mode: p.mode, Ref: p.ref})
 						} else if !c08Same(got, base[p]) {
 							report("verdict-differs-with-cache:cache-advanced-by-earlier-verification:index-complete", fmt.Sprintf("cache populated at %d, advanced by %s(%s) at %d, log length %d", k, adv.mode, adv.ref, j, n), p, got, base[p])
 						}
